@@ -371,6 +371,9 @@ OUTCOMES = {
                                        '>>> mark("{id}")  # xdoctest: +REQUIRES(module:too:many:parts)'], 'failed', False),
 }
 
+# kinds whose only fault is a wrong want: with wants switched off (+IGNORE_WANT) they pass
+FAIL_BY_OUTPUT = ('fail_output', 'fail_late', 'fail_output_warns')
+
 OUTCOME_PRELUDE = '''import os
 RUNLOG = []
 def mark(i):
